@@ -48,8 +48,10 @@ Fixpoint pair_items (fuel : nat) (chars : list ctok) : list range :=
   end.
 Definition class_items (chars : list ctok) : list range := pair_items (S (length chars)) chars.
 
-(* unescape on bytes (Z in 0..255).  Panic = index out of range or the
-   "unreachable" default, which the Go code turns into a crash. *)
+(* unescape on bytes (Z in 0..255).  Panic = index out of range (a \x, \u or
+   \U with too few bytes after it), a ParseUint error (a non-hex digit) or the
+   "unreachable" default, which the Go code turns into a crash.  A backslash
+   that is the last byte stands for itself (repair a38a9a0). *)
 Inductive uresult := UOk (runes_or_bytes : list (bool * Z)) | UPanic.
 (* (true, r): WriteRune r ; (false, b): WriteByte b *)
 
@@ -81,7 +83,7 @@ Fixpoint unescape_loop (fuel : nat) (lit : list Z) (acc : list (bool * Z)) : ure
     | [] => UOk (rev acc)
     | 92 :: rest =>
       match rest with
-      | [] => UPanic
+      | [] => UOk (rev ((false, 92) :: acc))
       | 110 :: r => unescape_loop f r ((true, 10) :: acc)
       | 114 :: r => unescape_loop f r ((true, 13) :: acc)
       | 116 :: r => unescape_loop f r ((true, 9) :: acc)
